@@ -55,7 +55,9 @@ def gen(rng, scenario, tier):
     cfg = adapters.sample_cfg(rng, name)
     k = adapters.kind(name)
     if name == "PCACD":
-        cfg.update(window_size=10, sample_period=rng.choice([0.1, 0.2]))
+        # window 10 means Page-Hinkley threshold 0 and intersection scores on a 1/10 lattice: with a lattice delta (0.05) the
+        # decision "sum > its minimum" is an exact tie decided by 1e-16 noise, which differs between int- and float-typed input
+        cfg.update(window_size=10, sample_period=rng.choice([0.1, 0.2]), delta=rng.choice([0.037, 0.013]))
     if name == "KdqTreeStreaming":
         cfg["window_size"] = rng.choice([2, 5, 8])
     if name == "LinearFourRates":
